@@ -960,8 +960,81 @@ class _Bodies(ast.NodeTransformer):
     visit_AsyncFunctionDef = visit_FunctionDef
 
 
+def _ladder_expr(stmts):
+    """the expression a `[if C: return A]* return B` ladder returns (if/elif/else with single returns included), or None"""
+    stmts = [s for s in stmts if not (isinstance(s, ast.Expr) and isinstance(s.value, ast.Constant))]
+    if not stmts:
+        return None
+    s0 = stmts[0]
+    if isinstance(s0, ast.Return) and s0.value is not None:
+        return s0.value if len(stmts) == 1 else None
+    if isinstance(s0, ast.If):
+        a = _ladder_expr(s0.body)
+        if a is None:
+            return None
+        if s0.orelse:
+            b = _ladder_expr(s0.orelse)
+            if b is None or len(stmts) != 1:
+                return None
+        else:
+            b = _ladder_expr(stmts[1:])
+            if b is None:
+                return None
+        return ast.IfExp(test=s0.test, body=a, orelse=b)
+    return None
+
+
+class _TupleCalls(ast.NodeTransformer):
+    def __init__(self, names):
+        self.names = names
+
+    def visit_Call(self, node):
+        self.generic_visit(node)
+        if isinstance(node.func, ast.Name) and node.func.id in self.names and not node.keywords and not any(isinstance(a, ast.Starred) for a in node.args):
+            node.args = [ast.copy_location(ast.Tuple(elts=list(node.args), ctx=ast.Load()), node)]
+        return node
+
+
+def prepare_helpers(tree, mod, pinned_funcs):
+    """N22: a new module-level function whose body is a ladder of `if C: return A` ... `return B` becomes `return A if C else B` (one expression);
+    N23: a new module-level function whose only parameter is *v, and which the module only ever calls with plain positional arguments, takes
+    the tuple itself: def f(v), calls f((a, b))."""
+    names = {}
+    for st in tree.body:
+        if isinstance(st, ast.FunctionDef) and ("%s.%s" % (mod, st.name)) not in pinned_funcs and not st.decorator_list:
+            names[st.name] = st
+    if not names:
+        return tree
+    for st in names.values():
+        body = [s for s in st.body if not (isinstance(s, ast.Expr) and isinstance(s.value, ast.Constant))]
+        if len(body) > 1 or (body and isinstance(body[0], ast.If)):
+            if any(isinstance(x, (ast.Yield, ast.YieldFrom, ast.NamedExpr)) for x in ast.walk(st)):
+                continue
+            e = _ladder_expr(body)
+            if e is not None:
+                st.body = [ast.copy_location(ast.Return(value=e), body[0])]
+    var = set()
+    for name, st in names.items():
+        a = st.args
+        if a.vararg is not None and not (a.args or a.kwarg or a.kwonlyargs or a.posonlyargs or a.defaults):
+            refs = [n for n in ast.walk(tree) if isinstance(n, ast.Name) and n.id == name]
+            calls = [n for n in ast.walk(tree) if isinstance(n, ast.Call) and isinstance(n.func, ast.Name) and n.func.id == name
+                     and not n.keywords and not any(isinstance(x, ast.Starred) for x in n.args)]
+            attr_refs = [n for n in ast.walk(tree) if isinstance(n, ast.Attribute) and n.attr == name]
+            if len(refs) == len(calls) and not attr_refs:
+                var.add(name)
+    if var:
+        tree = _TupleCalls(var).visit(tree)
+        for name in var:
+            a = names[name].args
+            a.args = [ast.arg(arg=a.vararg.arg)]
+            a.vararg = None
+    return tree
+
+
 def normalize_module(mod, tree, pinned_funcs, pinned_globals):
     from .pinned import PINNED_CLASS_ATTRS
+    tree = prepare_helpers(tree, mod, pinned_funcs)
     consts = module_constants(tree, pinned_globals)
     helpers = simple_helpers(tree, mod, pinned_funcs)
     cls_consts = class_constants(tree, PINNED_CLASS_ATTRS)
